@@ -329,6 +329,10 @@ pub trait Allocator<VM: VMBinding>: Downcast {
                 .allow_oom_call
             {
                 self.out_of_memory(tls);
+            } else {
+                // The VM must not be notified, but the request has failed for good: without this
+                // the slow path would retry the same hopeless request forever.
+                self.get_context().thrown_oom.store(true, Ordering::Relaxed);
             }
             return true;
         }
